@@ -51,16 +51,23 @@ def instantiate(cls, dim):
     return p
 
 
-def variants(cls, extra=()):
+def variants(cls, extra=(), order=None):
     """dimensions the constructor accepts; fixed-dimension classes ignore the argument"""
     out = []
     p0 = instantiate(cls, None)
     if p0 is not None and len(p0.parameters) > 0:
         return [(None, p0)]
-    for d in list(DIMS) + [d_ for d_ in extra if d_ not in DIMS]:
+    dims = list(DIMS) + [d_ for d_ in extra if d_ not in DIMS]
+    if order is not None:
+        # several problem objects of one class are alive at once, created in no particular order and used in another one: what one
+        # of them answers never depends on which of its siblings was created last
+        order.shuffle(dims)
+    for d in dims:
         p = instantiate(cls, d)
         if p is not None and len(p.parameters) == d:
             out.append((d, p))
+    if order is not None:
+        order.shuffle(out)
     return out
 
 
@@ -81,7 +88,7 @@ def cases(ctx):
 def run_case(ctx, name, params):
     from artap.individual import Individual
     cls = next(c for c in functions() if c.__name__ == params["cls"])
-    vs = variants(cls, params.get("extra", ()))
+    vs = variants(cls, params.get("extra", ()), ctx.rng("order", params["seed"]))
     if not vs:
         ctx.count("classes_not_constructible")
         return
